@@ -316,7 +316,8 @@ def _work_genuine(args):
             # length; user code may hand over numpy integers of any width that holds the value)
             forms = [int, np.int64, np.int32] + ([np.int16] if n_steps < 2 ** 15 else []) + ([np.int8, np.uint8] if n_steps < 2 ** 7 else [])
             n_steps_arg = forms[tid % len(forms)](n_steps)
-            ev = run_loop(obs, fixed, mobile, n_steps_arg, restr, table, types,
+            with common.caller_state(tid):
+              ev = run_loop(obs, fixed, mobile, n_steps_arg, restr, table, types,
                           sigma=float(rng.choice([0.1, 0.5, 1.0])), width=float(rng.uniform(0.02, 0.5)))
             if obs.nan:
                 continue        # a measure that is not a number is outside the property's domain
